@@ -10,8 +10,10 @@ import (
 	"context"
 	"crypto"
 	"crypto/ecdsa"
+	"crypto/ed25519"
 	"crypto/elliptic"
 	"crypto/rand"
+	"crypto/rsa"
 	"crypto/sha256"
 	"encoding/base64"
 	"encoding/hex"
@@ -34,6 +36,7 @@ import (
 	"github.com/lestrrat-go/jwx/v2/jwa"
 	"github.com/lestrrat-go/jwx/v2/jwk"
 	"github.com/lestrrat-go/jwx/v2/jws"
+	"github.com/lestrrat-go/jwx/v2/x25519"
 	"github.com/nuts-foundation/nuts-node/audit"
 	"github.com/nuts-foundation/nuts-node/core"
 	nutsCrypto "github.com/nuts-foundation/nuts-node/crypto"
@@ -72,6 +75,7 @@ type violation struct {
 	Op        string `json:"op,omitempty"`
 	NameClass string `json:"name_class,omitempty"`
 	Backend   string `json:"backend,omitempty"`
+	Jwk       string `json:"jwk,omitempty"` // class of the caller supplied jwk header whose secret part was echoed
 	Detail    string `json:"detail"`
 	Step      int    `json:"step"`
 }
@@ -420,6 +424,9 @@ type run struct {
 	aliasNC map[string]string // name class -> alias kid
 	aliasN  int
 	sid     string
+	jwkClass string           // jwk header class of the current step (SignJWS)
+	deleted map[string]string // abstract key -> kid whose key was deleted and not created again
+	inproc  map[string]bool   // abstract key whose current key was created / linked in process (the DID document does not know it)
 }
 
 func (r *run) violate(v violation) {
@@ -500,6 +507,10 @@ func (r *run) scanAll(http [][]byte, artefacts [][]byte, docs [][]byte) {
 		r.scan("token", dec)
 	}
 	for _, a := range artefacts {
+		if what, bad := headerPublishesSecretJWK(a); bad {
+			r.res.Checks++
+			r.violate(violation{Kind: "secret-leak", Channel: "jwsHeader", Jwk: r.jwkClass, Detail: "the protected header of a produced JWS carries a jwk with private/symmetric parameters: " + what})
+		}
 		r.scan("token", a)
 		segs := bytes.Split(bytes.TrimSpace(a), []byte("."))
 		if len(segs) >= 2 {
@@ -633,6 +644,24 @@ func (r *run) exec(s step) (outcome string) {
 	kid := r.kid[k]
 	switch a {
 	case "New":
+		if old := r.deleted[k]; old != "" {
+			// the key of this kid was deleted: a NEW key under the SAME key id
+			ref, pub, err := n.ks.New(r.ctx(), func(crypto.PublicKey) (string, error) { return old, nil })
+			if err != nil {
+				return "re-create under the same kid failed: " + err.Error()
+			}
+			fresh := n.harvest()
+			for _, c := range fresh {
+				c.kid = old
+			}
+			c := n.canaries[ref.KeyName]
+			if c == nil || !c.priv.PublicKey.Equal(pub) {
+				return "re-created but key file not found"
+			}
+			delete(r.deleted, k)
+			r.kid[k], r.pubOf[k], r.inproc[k] = old, ref.KeyName, true
+			return "ok re-created under the same kid"
+		}
 		r.aliasN++
 		subj := fmt.Sprintf("s%s-%s-%d", r.sid, k, r.aliasN)
 		ex := note(n.do("POST", n.internal+"/internal/vdr/v2/subject", map[string]any{"subject": subj}, ""))
@@ -681,19 +710,25 @@ func (r *run) exec(s step) (outcome string) {
 		return "signed"
 	case "SignJWS":
 		j := s.str("jwk")
-		callerKey, _ := ecdsa.GenerateKey(elliptic.P256(), rand.Reader)
-		var hdrMap any
-		var hdrKey jwk.Key
-		switch j {
-		case "public":
-			if c := n.canaries[r.pubOf[k]]; c != nil {
-				hdrKey, _ = jwk.FromRaw(c.priv.Public())
-			}
-		case "private":
-			hdrKey, _ = jwk.FromRaw(callerKey)
-		case "symmetric":
-			hdrKey, _ = jwk.FromRaw([]byte("0123456789abcdef0123456789abcdef"))
+		cls, fam := "none", "-"
+		if parts := strings.SplitN(j, ":", 2); len(parts) == 2 {
+			cls, fam = parts[0], parts[1]
 		}
+		ck := callerKeyOf(fam)
+		var hdrKey jwk.Key
+		var secrets [][]byte
+		switch cls {
+		case "pub":
+			if ck != nil {
+				hdrKey, _ = jwk.FromRaw(ck.pub)
+			}
+		case "priv", "sym":
+			if ck != nil {
+				hdrKey, _ = jwk.FromRaw(ck.priv)
+				secrets = ck.secrets
+			}
+		}
+		var hdrMap any
 		if hdrKey != nil {
 			bs, _ := json.Marshal(hdrKey)
 			_ = json.Unmarshal(bs, &hdrMap)
@@ -704,12 +739,13 @@ func (r *run) exec(s step) (outcome string) {
 		}
 		payload := []byte("payload-" + k)
 		out := ""
+		var produced [][]byte
 		// (1) through the HTTP API (jwk header arrives as a JSON object)
 		for _, detached := range []bool{false, true} {
 			ex := note(n.do("POST", n.internal+"/internal/crypto/v1/sign_jws", map[string]any{"kid": kid, "headers": headers, "payload": payload, "detached": detached}, ""))
 			out += fmt.Sprintf("http:%d ", ex.status)
 			if ex.status == 200 {
-				artefacts = append(artefacts, ex.body)
+				produced = append(produced, bytes.TrimSpace(ex.body))
 				if detached {
 					r.verifySig(bytes.TrimSpace(ex.body), payload, r.pubOf[k], kid)
 				} else {
@@ -717,24 +753,51 @@ func (r *run) exec(s step) (outcome string) {
 				}
 			}
 		}
-		// (2) in process, the way the node's own components pass a jwk.Key object
-		h2 := map[string]interface{}{"typ": "verif"}
-		if hdrKey != nil {
-			h2["jwk"] = hdrKey
-		}
-		sig, err := n.ks.SignJWS(r.ctx(), payload, h2, kid, false)
-		if err != nil {
-			out += "inproc:refused"
-		} else {
-			out += "inproc:signed"
-			artefacts = append(artefacts, []byte(sig))
-			r.verifySig([]byte(sig), nil, r.pubOf[k], kid)
-			if j == "private" {
-				// mechanism check (not the property): a private jwk header should be refused
-				r.res.Drift = append(r.res.Drift, "SignJWS signed with a caller supplied PRIVATE jwk header")
+		// (2) in process, the way the node's own components pass a jwk.Key object: key store method, detached and not ...
+		for _, detached := range []bool{false, true} {
+			h2 := map[string]interface{}{"typ": "verif"}
+			if hdrKey != nil {
+				h2["jwk"] = hdrKey
+			}
+			sig, err := n.ks.SignJWS(r.ctx(), payload, h2, kid, detached)
+			if err != nil {
+				out += "inproc:refused "
+				continue
+			}
+			out += "inproc:signed "
+			produced = append(produced, []byte(sig))
+			if hdrKey == nil { // with a jwk header the kid header is dropped and verification is by that jwk: not the store's business
+				if detached {
+					r.verifySig([]byte(sig), payload, r.pubOf[k], kid)
+				} else {
+					r.verifySig([]byte(sig), nil, r.pubOf[k], kid)
+				}
 			}
 		}
-		return out
+		// (3) ... and the package level crypto.SignJWS every other signer (DAG transactions, in-memory signer) ends in
+		if hdrKey != nil {
+			h3 := map[string]interface{}{"typ": "verif", "kid": "verif-throwaway", "jwk": hdrKey}
+			if sig, err := nutsCrypto.SignJWS(r.ctx(), payload, h3, throwawaySigner, false); err == nil {
+				out += "pkg:signed"
+				produced = append(produced, []byte(sig))
+			} else {
+				out += "pkg:refused"
+			}
+		}
+		artefacts = append(artefacts, produced...)
+		// no private / symmetric key material handed in through a header may be published by the produced JWS
+		for _, jwsText := range produced {
+			r.res.Checks++
+			hdr := protectedHeaderOf(jwsText)
+			for _, sec := range secrets {
+				if bytes.Contains(jwsText, sec) || bytes.Contains(hdr, sec) {
+					r.violate(violation{Kind: "secret-leak", Channel: "jwsHeader", Jwk: j,
+						Detail: fmt.Sprintf("the %s key supplied in the jwk header is published by the produced JWS: protected header %s", j, trunc(string(hdr), 300))})
+					break
+				}
+			}
+		}
+		return strings.TrimSpace(out)
 	case "SignDPoP":
 		var ex httpExchange
 		for _, esc := range []string{url.PathEscape(kid), strings.ReplaceAll(url.PathEscape(kid), "%25", "%"), url.PathEscape(url.PathEscape(kid))} {
@@ -783,7 +846,7 @@ func (r *run) exec(s step) (outcome string) {
 		// the node's own verifier must accept it (signature made by the key the document publishes)
 		vex := note(n.do("POST", n.internal+"/internal/vcr/v2/verifier/vc", map[string]any{"verifiableCredential": cred}, ""))
 		r.res.Checks++
-		if !bytes.Contains(vex.body, []byte(`"validity":true`)) {
+		if !r.inproc[k] && !bytes.Contains(vex.body, []byte(`"validity":true`)) {
 			r.violate(violation{Kind: "wrong-key", Detail: "credential issued by " + did + " does not verify with the published key: " + trunc(string(vex.body), 160)})
 		}
 		// JWT format as well
@@ -869,27 +932,46 @@ func (r *run) exec(s step) (outcome string) {
 		return fmt.Sprintf("%d kids listed", len(names))
 	case "Delete":
 		err := n.ks.Delete(r.ctx(), kid)
-		if err == nil {
-			// the key file must be gone, the canary stays registered (its secret must still not show up anywhere)
-			if _, statErr := os.Stat(filepath.Join(n.keyDir(), r.pubOf[k]+"_private.pem")); statErr == nil {
-				r.res.Drift = append(r.res.Drift, "Delete left the key file behind")
+		if err != nil {
+			return fmt.Sprintf("deleted err=%v", err)
+		}
+		// the key file must be gone, the canary stays registered (its secret must still not show up anywhere)
+		if _, statErr := os.Stat(filepath.Join(n.keyDir(), r.pubOf[k]+"_private.pem")); statErr == nil {
+			r.res.Drift = append(r.res.Drift, "Delete left the key file behind")
+		}
+		r.deleted[k] = kid
+		// every abstract key that was linked to the same key material lost it as well
+		for q, nm := range r.pubOf {
+			if q != k && nm == r.pubOf[k] && r.deleted[q] == "" && r.kid[q] != "" {
+				r.deleted[q] = r.kid[q]
 			}
 		}
-		return fmt.Sprintf("deleted err=%v", err)
+		return "deleted; " + r.deletedCannotSign(k, &httpOut, &artefacts)
+	case "SignDeleted":
+		if r.deleted[k] == "" {
+			return "not deleted"
+		}
+		return r.deletedCannotSign(k, &httpOut, &artefacts)
 	case "LinkKey":
 		to := s.str("to")
-		r.aliasN++
-		alias := fmt.Sprintf("verif-alias-%s-%d", r.sid, r.aliasN)
-		err := n.ks.Link(r.ctx(), alias, r.pubOf[to], "1")
+		target := r.kid[k]
+		if old := r.deleted[k]; old != "" {
+			target = old // the kid lost its key: link it to the other key
+		} else if target == "" || !r.inproc[k] {
+			r.aliasN++
+			target = fmt.Sprintf("verif-alias-%s-%d", r.sid, r.aliasN)
+		}
+		err := n.ks.Link(r.ctx(), target, r.pubOf[to], "1")
 		if err == nil {
-			r.kid[k], r.pubOf[k] = alias, r.pubOf[to]
+			delete(r.deleted, k)
+			r.kid[k], r.pubOf[k], r.inproc[k] = target, r.pubOf[to], true
 			r.webDID[k], r.nutsDID[k], r.subject[k] = r.webDID[to], r.nutsDID[to], r.subject[to]
 		}
-		return fmt.Sprintf("linked err=%v", err)
+		return fmt.Sprintf("linked %s err=%v", trunc(target, 40), err)
 	case "LinkName":
 		nc := s.str("nc")
 		r.aliasN++
-		alias := fmt.Sprintf("verif-alias-%s-%s-%d", r.sid, nc, r.aliasN)
+		alias := fmt.Sprintf("verif-name-%s-%s-%d", r.sid, nc, r.aliasN)
 		err := n.ks.Link(r.ctx(), alias, nameOfClass[nc], "1")
 		if err == nil {
 			r.aliasNC[nc] = alias
@@ -913,6 +995,116 @@ func (r *run) exec(s step) (outcome string) {
 	return "unknown action"
 }
 
+// deletedCannotSign: every operation that needs the private key of a deleted kid must fail.
+func (r *run) deletedCannotSign(k string, httpOut, artefacts *[][]byte) string {
+	n, kid := r.n, r.deleted[k]
+	r.res.Checks++
+	var still []string
+	if tok, err := n.ks.SignJWT(r.ctx(), map[string]interface{}{"iss": "x"}, nil, kid); err == nil {
+		still = append(still, "SignJWT")
+		*artefacts = append(*artefacts, []byte(tok))
+	}
+	if tok, err := n.ks.SignJWS(r.ctx(), []byte("p"), map[string]interface{}{}, kid, false); err == nil {
+		still = append(still, "SignJWS")
+		*artefacts = append(*artefacts, []byte(tok))
+	}
+	req, _ := http.NewRequest("GET", "https://resource.example.com/x", nil)
+	if tok, err := n.ks.SignDPoP(r.ctx(), *dpop.New(*req), kid); err == nil {
+		still = append(still, "SignDPoP")
+		*artefacts = append(*artefacts, []byte(tok))
+	}
+	if _, err := n.ks.Decrypt(r.ctx(), kid, []byte("not a ciphertext")); err == nil {
+		still = append(still, "Decrypt")
+	}
+	ex := n.do("POST", n.internal+"/internal/crypto/v1/sign_jwt", map[string]any{"kid": kid, "claims": map[string]any{"iss": "x"}}, "")
+	*httpOut = append(*httpOut, ex.all)
+	if ex.status == 200 {
+		still = append(still, "sign_jwt API")
+		*artefacts = append(*artefacts, ex.body)
+	}
+	if _, err := n.ks.Resolve(r.ctx(), kid); err == nil {
+		still = append(still, "Resolve")
+	}
+	if len(still) > 0 {
+		r.violate(violation{Kind: "wrong-key", Detail: fmt.Sprintf("the key of %s was deleted but %v still succeed(s): a signature for this kid verifies with no published key", kid, still)})
+		return "deleted key still usable: " + strings.Join(still, ",")
+	}
+	return "deleted key refused"
+}
+
+// caller supplied keys of every family jwx knows (generated once per process)
+type callerKey struct {
+	priv, pub any
+	secrets   [][]byte // encodings of the secret part as they would appear in a JWK (base64url) and raw
+}
+
+var (
+	callerKeysOnce  sync.Once
+	callerKeys      map[string]*callerKey
+	throwawaySigner crypto.Signer
+)
+
+func callerKeyOf(fam string) *callerKey {
+	callerKeysOnce.Do(func() {
+		callerKeys = map[string]*callerKey{}
+		secretsOf := func(vals ...[]byte) [][]byte {
+			var out [][]byte
+			for _, v := range vals {
+				if len(v) >= 16 {
+					out = append(out, []byte(base64.RawURLEncoding.EncodeToString(v)), v, []byte(hex.EncodeToString(v)))
+				}
+			}
+			return out
+		}
+		for name, curve := range map[string]elliptic.Curve{"EC-P256": elliptic.P256(), "EC-P384": elliptic.P384(), "EC-P521": elliptic.P521()} {
+			k, _ := ecdsa.GenerateKey(curve, rand.Reader)
+			d := make([]byte, (curve.Params().BitSize+7)/8)
+			k.D.FillBytes(d)
+			callerKeys[name] = &callerKey{priv: k, pub: &k.PublicKey, secrets: secretsOf(d)}
+		}
+		rk, _ := rsa.GenerateKey(rand.Reader, 2048)
+		callerKeys["RSA"] = &callerKey{priv: rk, pub: &rk.PublicKey, secrets: secretsOf(rk.D.Bytes(), rk.Primes[0].Bytes(), rk.Primes[1].Bytes())}
+		edPub, edPriv, _ := ed25519.GenerateKey(rand.Reader)
+		callerKeys["OKP-Ed25519"] = &callerKey{priv: edPriv, pub: edPub, secrets: secretsOf(edPriv.Seed())}
+		xPub, xPriv, _ := x25519.GenerateKey(rand.Reader)
+		callerKeys["OKP-X25519"] = &callerKey{priv: xPriv, pub: xPub, secrets: secretsOf(xPriv.Seed())}
+		sym := make([]byte, 32)
+		_, _ = rand.Read(sym)
+		callerKeys["oct"] = &callerKey{priv: sym, pub: nil, secrets: secretsOf(sym)}
+		throwawaySigner, _ = ecdsa.GenerateKey(elliptic.P256(), rand.Reader)
+	})
+	return callerKeys[fam]
+}
+
+func protectedHeaderOf(compact []byte) []byte {
+	seg := bytes.SplitN(bytes.TrimSpace(compact), []byte("."), 2)[0]
+	dec, err := base64.RawURLEncoding.DecodeString(string(seg))
+	if err != nil {
+		return nil
+	}
+	return dec
+}
+
+// privateJWKParams: members that only a private / symmetric JWK has (RFC 7518 6.2.2, 6.3.2, 6.4; RFC 8037)
+var privateJWKParams = []string{"d", "p", "q", "dp", "dq", "qi", "oth", "k"}
+
+// headerPublishesSecretJWK reports whether the protected header of a JWS carries a jwk with private / symmetric parameters.
+func headerPublishesSecretJWK(compact []byte) (string, bool) {
+	hdr := protectedHeaderOf(compact)
+	var h struct {
+		JWK map[string]any `json:"jwk"`
+	}
+	if hdr == nil || json.Unmarshal(hdr, &h) != nil || h.JWK == nil {
+		return "", false
+	}
+	for _, p := range privateJWKParams {
+		if _, ok := h.JWK[p]; ok {
+			return fmt.Sprintf("kty=%v crv=%v member %q", h.JWK["kty"], h.JWK["crv"], p), true
+		}
+	}
+	return "", false
+}
+
 func kidOfJWS(compact string) string {
 	seg := strings.SplitN(compact, ".", 2)[0]
 	dec, err := base64.RawURLEncoding.DecodeString(seg)
@@ -927,12 +1119,16 @@ func kidOfJWS(compact string) string {
 	return k
 }
 
+// ownerOfKid returns the storage name of the key the key reference of kid CURRENTLY points at ("" if none / not a canary).
 func (r *run) ownerOfKid(kid string) string {
 	if kid == "" {
 		return ""
 	}
-	for name, c := range r.n.canaries {
-		if c.kid == kid {
+	var rows []map[string]any
+	r.n.db.Table("key_reference").Where("kid = ?", kid).Find(&rows)
+	for _, row := range rows {
+		name := fmt.Sprint(row["key_name"])
+		if _, ok := r.n.canaries[name]; ok {
 			return name
 		}
 	}
@@ -1173,14 +1369,14 @@ func (n *nodeEnv) runScript(sc script) result {
 	res := result{ID: sc.ID, Violations: []violation{}, Ops: []opResult{}, Drift: []string{}, Trace: []map[string]any{}}
 	h := sha256.Sum256([]byte(sc.ID))
 	r := &run{n: n, res: &res, subject: map[string]string{}, webDID: map[string]string{}, nutsDID: map[string]string{}, kid: map[string]string{}, pubOf: map[string]string{},
-		aliasNC: map[string]string{}, sid: hex.EncodeToString(h[:4])}
+		aliasNC: map[string]string{}, deleted: map[string]string{}, inproc: map[string]bool{}, sid: hex.EncodeToString(h[:4])}
 	defer func() {
 		if rec := recover(); rec != nil {
 			res.Error = fmt.Sprintf("harness panic: %v", rec)
 		}
 	}()
 	for i, s := range sc.Steps {
-		r.stepNo, r.op = i, s.str("a")
+		r.stepNo, r.op, r.jwkClass = i, s.str("a"), s.str("jwk")
 		out := r.exec(s)
 		res.Ops = append(res.Ops, opResult{A: s.str("a"), Outcome: out})
 		ev := map[string]any{"ev": "op", "a": s.str("a"), "leak": len(res.Violations) > 0}
